@@ -98,6 +98,7 @@ def check_failed_check_binds_no_structure(ctx):
 
 
 def _check_fn(ctx):
+    _polarity_guard(ctx)
     return ctx.model.func("_pytree_type._MetaPyTree._check")
 
 
@@ -108,7 +109,45 @@ def _pt_functions(ctx):
     return [x for x in m.all_functions(include_typeguard=False) if x.module.short == "_pytree_type" and x.name not in ("__getitem__", "__pdoc__", "__call__")]
 
 
+def _polarity_guard(ctx):
+    """The rules read `return False` in the PyTree check as 'reject'.  If the check function was renamed, make sure its
+    result still means 'matches': in `__instancecheck__` the truthy side of the call must be the accepting one.  An inverted
+    predicate (`_mismatches`) is not interpreted."""
+    cache = ctx.__dict__.setdefault("_c09_polarity", {})
+    if "v" in cache:
+        if cache["v"] is not True:
+            raise AnalysisError(cache["v"])
+        return
+    m = ctx.model
+    cache["v"] = True
+    if "_pytree_type._MetaPyTree._check" in m.functions:
+        return
+    ic = m.functions.get("_pytree_type._MetaPyTree.__instancecheck__")
+    if ic is None:
+        return
+    try:
+        target = m.func("_pytree_type._MetaPyTree._check").name
+    except AnalysisError:
+        return
+    resvars = {a_.targets[0].id for a_ in ast.walk(ic.node) if isinstance(a_, ast.Assign) and len(a_.targets) == 1 and isinstance(a_.targets[0], ast.Name)
+               and isinstance(a_.value, ast.Call) and isinstance(a_.value.func, ast.Attribute) and a_.value.func.attr == target}
+    for st in ast.walk(ic.node):
+        if isinstance(st, ast.If):
+            t, neg = st.test, False
+            while isinstance(t, ast.UnaryOp) and isinstance(t.op, ast.Not):
+                t, neg = t.operand, not neg
+            is_res = (isinstance(t, ast.Call) and isinstance(t.func, ast.Attribute) and t.func.attr == target) or (isinstance(t, ast.Name) and t.id in resvars)
+            if is_res:
+                truthy = st.orelse if neg else st.body
+                rets = [x for b_ in truthy for x in ast.walk(b_) if isinstance(x, ast.Return) and isinstance(x.value, ast.Constant)]
+                if rets and rets[-1].value.value is False:
+                    cache["v"] = (f"C09: the PyTree check predicate `{target}` answers True for a *mismatch* (its truthy side rejects in __instancecheck__): "
+                                  "the rules read `return False` as 'reject' and do not interpret an inverted predicate")
+                    raise AnalysisError(cache["v"])
+
+
 def _find_in_check(ctx, pred, what):
+    _polarity_guard(ctx)
     hits = []
     for g_ in _pt_functions(ctx):
         for n in ast.walk(g_.node):
@@ -389,6 +428,10 @@ def check_identifier_form(ctx):
     memo = memos[0]
     # locals that stand for the structure name (`name = cls.structure`), bound once in the branch
     region_mod = ast.Module(body=ident_stmts, type_ignores=[])
+    if not any(isinstance(x, ast.Subscript) and norm(x.value) == memo for x in ast.walk(region_mod)) and not any(
+            isinstance(x, ast.Compare) and any(norm(c_) == memo for c_ in x.comparators) for x in ast.walk(region_mod)):
+        raise AnalysisError(f"C09.3: the branch guarded by `{norm(if0.test)}` never touches the structure memo `{memo}`: the bind-or-compare of a single structure name "
+                            "happens somewhere the rule did not find (the test only classifies the string)")
     stores = {}
     for x in ast.walk(f.node):
         if isinstance(x, ast.Name) and isinstance(x.ctx, ast.Store):
